@@ -38,7 +38,7 @@ Fixpoint readDirAll (e : entry) : entry :=
   end.
 
 (* ---- package strings ---- *)
-Fixpoint has_prefix (s p : str) : bool :=
+Fixpoint has_prefix (s p : str) {struct p} : bool :=
   match p, s with
   | [], _ => true
   | c :: p', d :: s' => N.eqb c d && has_prefix s' p'
